@@ -1,11 +1,10 @@
-package main
+package hx
 
 import (
 	"encoding/json"
 	"flag"
 	"fmt"
 	"os"
-	"sort"
 	"strconv"
 )
 
@@ -79,34 +78,19 @@ func (r *Result) Write(dir string) {
 	}
 }
 
-var commands = map[string]func(o Opts) error{}
-
-func main() {
-	if len(os.Args) < 2 {
-		var names []string
-		for k := range commands {
-			names = append(names, k)
-		}
-		sort.Strings(names)
-		fmt.Println("usage: zvh <cmd> [-seed N] [-tier quick|thorough] [-out DIR] [-replay FILE]; cmds:", names)
-		os.Exit(2)
-	}
-	cmd := os.Args[1]
+// Main is the entry point of every per-property binary: zvh-cNN [-seed N] [-tier T] [-out DIR] [-replay FILE]
+func Main(name string, f func(o Opts) error) {
+	cmd := name
 	fs := flag.NewFlagSet(cmd, flag.ExitOnError)
 	seed := fs.String("seed", "1", "seed")
 	tier := fs.String("tier", "quick", "tier")
 	out := fs.String("out", ".", "output dir")
 	replay := fs.String("replay", "", "replay file")
-	fs.Parse(os.Args[2:])
+	fs.Parse(os.Args[1:])
 	s, _ := strconv.ParseUint(*seed, 10, 64)
-	f, ok := commands[cmd]
-	if !ok {
-		fmt.Fprintln(os.Stderr, "unknown command", cmd)
-		os.Exit(2)
-	}
 	os.MkdirAll(*out, 0755)
 	if err := f(Opts{Seed: s, Tier: *tier, Out: *out, Replay: *replay}); err != nil {
-		fmt.Fprintln(os.Stderr, "zvh:", err)
+		fmt.Fprintln(os.Stderr, "zvh-"+name+":", err)
 		os.Exit(3)
 	}
 }
